@@ -45,7 +45,8 @@ inline void checkObs(vf::Ctx& c, ObsWorld& W, const GModel& gm, const std::strin
   NP* const nk = nullptr; EP* const ek = nullptr;
   auto nodesOf = [&](const std::set<Id>& ids) { std::multiset<NP> r; for (Id i : ids) { int t; if (m.tagOfNode(i, t)) r.insert(W.nObj.at(t)); } return r; };
   auto edgesOf = [&](const std::set<Id>& ids) { std::multiset<EP> r; for (Id i : ids) { int t; if (m.tagOfEdge(i, t)) r.insert(W.eObj.at(t)); } return r; };
-  // a translated id list mentions an id equal to the size of the id->object table (C14-obs-fromgraphid-offbyone)
+  // a translated id list mentions an id equal to the size of the id->object table (the off-by-one of getNodesFromGraphid /
+  // getEdgesFromGraphid, repaired in /repo by 46e1305: the exclusion id is not listed any more, so nothing is left out)
   auto hitsN = [&](const std::set<Id>& ids) { return ids.count(m.nTable) > 0; };
   auto hitsE = [&](const std::set<Id>& ids) { return ids.count(m.eTable) > 0; };
   const bool offKnown = c.isKnown("C14-obs-fromgraphid-offbyone");
